@@ -919,13 +919,19 @@ def run(ctx):
         for b in r["bad"]:
             ctx.violation("C15:%s:%s" % (b[0], b[1]), "discrete: %s" % (b,),
                           {"part": "discrete", "case": r["name"]})
-    n, bad = poisson_check()
+    def limited(fn, what):
+        try:
+            with common.time_limit(600, what):
+                return fn()
+        except common.LibraryHang as ex:
+            return 0, [("does-not-return", what, str(ex))]
+    n, bad = limited(poisson_check, "the Poisson part")
     ev += n
     for b in bad:
         ctx.violation("C15:%s:%s" % (b[0], b[1]), "poisson: %s" % (b,),
                       {"part": "poisson"})
     ctx.part("Poisson by consumption-dimension lattices", evaluations=n)
-    n, bad = large_parameter_pmf()
+    n, bad = limited(large_parameter_pmf, "the large-parameter pmf part")
     ev += n
     for b in bad:
         ctx.violation("C15:%s:%s" % (b[0], b[1]), "large parameters: %s" % (b,),
@@ -943,7 +949,7 @@ def run(ctx):
     ev += ns
     ctx.part("sibling instances of one class in one process, 3 orders",
              families=len(fams) // 3, evaluations=ns)
-    n, bad = cdf_checks()
+    n, bad = limited(cdf_checks, "the cdf part")
     ev += n
     for b in bad:
         ctx.violation("C15:%s:%s" % (b[0], b[1]), "cdf: %s" % (b,),
